@@ -163,6 +163,7 @@ type c10Sched struct {
 	seed          int64
 	filler        int
 	warm          bool // send one textDocument/completion first (fills the completion cache)
+	live          int  // further open documents with an unsaved clean edit (live analysis results), see c10SetupLive
 }
 
 // c10Spin waits a few microseconds without a system call.
@@ -181,6 +182,15 @@ func c10RunOverlap(c *c10Client, s c10Sched) [][2]string {
 	rng := rand.New(rand.NewSource(s.seed))
 	var out [][2]string
 	for k := 0; k < s.reps; k++ {
+		if s.live > 0 {
+			// keep typing in one of the other documents between the rounds (fenced): the recency order of the live
+			// results differs from round to round, and a result that a broken edit displaced comes back
+			c.liveEdit(1+rng.Intn(s.live), k+1)
+			if k%4 == 3 {
+				c.liveEdit(0, k+1)
+			}
+			c.fence()
+		}
 		p1 := c.prepare(s.first, k)
 		p2 := c.prepare(s.second, k)
 		gap := []int{0, 0, 0, 5, 20, 60, 150, 400}[rng.Intn(8)]
@@ -225,6 +235,64 @@ func c10Setup(dir string, filler int, warm bool) *c10Client {
 	if warm {
 		c.call("textDocument/completion", c.prepare("textDocument/completion", 0))
 	}
+	return c
+}
+
+// c10LiveRel: the i-th further document (i from 1); 0 = a.lua
+func c10LiveRel(i int) string {
+	if i == 0 {
+		return c10Doc
+	}
+	return fmt.Sprintf("live/m%02d.lua", i)
+}
+
+// c10LiveText: document i of n. Every document uses the global `gfun` (a.lua) and calls the annotated functions of
+// its two neighbours from inside a function body and assigns their globals (the constant-assignment check looks at the
+// annotation of the DEFINING file on every assignment), so that the re-analysis after didSave / watched-file events looks
+// up the annotations of OTHER live documents from its worker pool.
+func c10LiveText(i, n int) string {
+	prev, next := (i+n-2)%n+1, i%n+1
+	return fmt.Sprintf("---@param k number\n---@return number\nfunction peek%d(k)\n  local v = gfun(k + %d)\n  return v\nend\n"+
+		"function use%d()\n  local w = bfun(%d)\n  return peek%d(1) + peek%d(w) + gfun(w)\nend\ngcount%d = gfun(%d)\n"+
+		"function reset%d()\n  gcount%d = 0\n  gcount%d = 1\n  gcount%d = 2\n  gtab = nil\nend\n",
+		i, i, i, i, prev, next, i, i, i, i, prev, next)
+}
+
+// liveEdit types one more (valid) line at the end of document i: a clean didChange, so the server keeps a live
+// analysis result for the document until it is saved or closed.
+func (c *c10Client) liveEdit(i, round int) {
+	rel := c10LiveRel(i)
+	doc := c.docs[rel]
+	txt := fmt.Sprintf("local pad%d_%d = %d\n", i, round, round)
+	end := c10EndPos(doc)
+	c.vers++
+	c.docs[rel] = doc + txt
+	c.notify("textDocument/didChange", c10o{"textDocument": c10o{"uri": c.uri(rel), "version": c.vers},
+		"contentChanges": []c10o{{"range": c10o{"start": end, "end": end}, "text": txt}}})
+}
+
+// c10SetupLive: c10Setup plus `live` further documents (on disk before the server starts) that are opened and
+// edited; a.lua gets a clean edit too. Afterwards live+1 documents hold a live analysis result and all of them use
+// the global `gfun` the reference / rename queries ask about.
+func c10SetupLive(dir string, filler int, warm bool, live int) *c10Client {
+	if live <= 0 {
+		return c10Setup(dir, filler, warm)
+	}
+	root := filepath.Join(dir, "root")
+	c10InitExtra = c10o{"CheckFuncParamType": true, "CheckConstAssign": true}
+	os.MkdirAll(filepath.Join(root, "live"), 0755)
+	for i := 1; i <= live; i++ {
+		ioutil.WriteFile(filepath.Join(root, c10LiveRel(i)), []byte(c10LiveText(i, live)), 0644)
+	}
+	c := c10Setup(dir, filler, warm)
+	for i := 1; i <= live; i++ {
+		c.didOpen(c10LiveRel(i), c10LiveText(i, live))
+	}
+	c.fence()
+	for i := 0; i <= live; i++ {
+		c.liveEdit(i, 0)
+	}
+	c.fence()
 	return c
 }
 
